@@ -154,6 +154,8 @@ def exec_history(case: Dict[str, Any]) -> Dict[str, Any]:
         for opi, op in enumerate(case["ops"]):
             out["stats"]["ops"] += 1
             kind = op["op"]
+            guard = gcsim.bounded(60)          # every library operation is bounded: a hang is a reported violation
+            guard.__enter__()
             try:
                 if kind == "append":
                     tx = t.new_transaction().begin()
@@ -224,8 +226,13 @@ def exec_history(case: Dict[str, Any]) -> Dict[str, Any]:
                     for v in res.pop("violations"):
                         out["violations"].append(v)
                     out["collects"].append(res)
+            except (gcsim.CaseTimeout, MemoryError) as e:
+                out["violations"].append({"key": f"hang:{kind}", "what": f"operation {opi} ({kind}) did not finish within its limits: {type(e).__name__}: {e}"})
+                break
             except Exception as e:  # noqa: BLE001 - an op refused by the library is not a C05 matter
                 out["op_errors"].append(f"op {opi} {kind}: {type(e).__name__}: {str(e)[:160]}")
+            finally:
+                guard.__exit__()
     except Exception:
         out["harness_error"] = traceback.format_exc()[-1500:]
     finally:
@@ -365,8 +372,21 @@ def run_histories(ctx) -> None:
     t0 = time.time()
     workers = min(14, max(1, (os.cpu_count() or 2) - 2))
     results: List[Dict[str, Any]] = []
-    with cf.ProcessPoolExecutor(max_workers=workers, mp_context=mp.get_context("spawn")) as ex:
-        results = list(ex.map(exec_history, cases, chunksize=2))
+    ex = cf.ProcessPoolExecutor(max_workers=workers, mp_context=mp.get_context("spawn"), initializer=gcsim.limit_worker_memory)
+    budget = 900 if ctx.tier == "quick" else 3000
+    try:
+        futs = [ex.submit(exec_history, c) for c in cases]
+        for f, c in zip(futs, cases):
+            try:
+                results.append(f.result(timeout=max(5.0, budget - (time.time() - t0))))
+            except Exception as e:  # noqa: BLE001 - TimeoutError / BrokenProcessPool: a stuck or killed worker is a failed case
+                results.append({"violations": [{"key": "hang:worker", "what": f"history at location {c['spelling']!r} did not finish: {type(e).__name__}"}],
+                                "collects": [], "op_errors": [], "stats": {"ops": 0, "collects": 0, "deleted": 0, "open_tx_at_collect": 0}, "dead": True})
+    finally:
+        if any(r.get("dead") for r in results):
+            for proc in list(getattr(ex, "_processes", {}).values()):
+                proc.kill()
+        ex.shutdown(wait=False, cancel_futures=True)
     ctx.stats["history_wall_s"] = round(time.time() - t0, 1)
     agg = {"histories": len(cases), "ops": 0, "collects": 0, "deleted": 0, "open_tx_at_collect": 0, "op_errors": 0, "collects_with_deletions": 0}
     exprs, recs = [], []
@@ -381,7 +401,7 @@ def run_histories(ctx) -> None:
         for v in res["violations"]:
             key = v["key"]
             payload_case = {"spelling": case["spelling"], "seed": case["seed"], "ops": case["ops"]}
-            if key not in seen_keys:
+            if key not in seen_keys and not key.startswith("hang:"):
                 seen_keys.add(key)
                 small = shrink(case, key)
                 payload_case["ops"] = small["ops"]
